@@ -22,6 +22,7 @@ pub struct Element {
     pub push_pop_type: PushPopType,
     pub evaluation_stack_height_when_pushed: usize,
     pub function_start_in_output_stream: i32,
+    pub thread_count_when_pushed: usize,
 }
 
 impl Element {
@@ -37,6 +38,7 @@ impl Element {
             push_pop_type,
             evaluation_stack_height_when_pushed: 0,
             function_start_in_output_stream: 0,
+            thread_count_when_pushed: 0,
         }
     }
 }
@@ -239,7 +241,11 @@ impl CallStack {
     }
 
     pub fn can_pop_thread(&self) -> bool {
-        self.threads.len() > 1 && !self.element_is_evaluate_from_game()
+        // A function evaluated from the game must not pop the threads that were there
+        // when it was called, but a thread it started itself ends like any other.
+        self.threads.len() > 1
+            && (!self.element_is_evaluate_from_game()
+                || self.threads.len() > self.get_current_element().thread_count_when_pushed)
     }
 
     pub fn pop_thread(&mut self) -> Result<(), StoryError> {
@@ -406,6 +412,7 @@ impl CallStack {
 
         element.evaluation_stack_height_when_pushed = external_evaluation_stack_height;
         element.function_start_in_output_stream = output_stream_length_with_pushed;
+        element.thread_count_when_pushed = self.threads.len();
 
         self.get_callstack_mut().push(element);
     }
